@@ -280,6 +280,11 @@ def gen_instance(rng, quick, forms=("vec1d", "col", "dm", "dm_mixed"), dims_pool
     else:
         kind = "random"
         vecs = [qgen.unit(qgen.int_vector(rng, D, cplx)) for _ in range(k)]
+    if k >= 3 and form != "dm_mixed" and rng.integers(6) == 0:
+        # the same state listed twice (two labels for one preparation): naming either label is right only for that label
+        i, j = (int(x) for x in rng.choice(k, size=2, replace=False))
+        vecs[j] = vecs[i].copy()
+        kind = kind + "+repeat"
     probs = qgen.dyadic_probs(rng, k)
     states = _shape_states(vecs, form, rng, D, cplx)
     return {"dA": dA, "dB": dB, "k": k, "cplx": cplx, "form": form, "kind": kind, "states": states, "probs": probs,
@@ -1587,6 +1592,19 @@ def run(ctx, model_ok=True):
         inst = vary_ensemble(prs, gen_instance(rng, quick, forms=(form,), dims_pool=[(2, 3)]))
         inst["dim_default"] = False
         inst["dim_form"] = "list" if form == "dm" else "scalar"   # dim=2 on a 2x3 system, levels 1 and 2
+        hier.append((inst, [1, 2]))
+    # the same state under two labels ([a, a, b, ..]): merging them would change the value (drawn from a spawned generator)
+    rrng = rng.spawn(1)[0]
+    for form, given in (("col", False), ("dm", True)):
+        inst = gen_instance(rrng, quick, forms=(form,), dims_pool=[(2, 2)])
+        while inst["k"] < 3 or "repeat" in inst["kind"]:
+            inst = gen_instance(rrng, quick, forms=(form,), dims_pool=[(2, 2)])
+        inst["states"][1] = np.array(inst["states"][0], copy=True)
+        inst["kind"] += "+repeat"
+        inst["probs_given"] = given or len(set(inst["probs"])) > 1
+        inst = vary_ensemble(prs, inst)
+        inst["dim_default"] = False
+        inst["dim_form"] = "list"
         hier.append((inst, [1, 2]))
     hier.append((vary_ensemble(prs, bell_instance("col", rng)), [1, 2]))
     hier.append((vary_ensemble(prs, bell_instance("dm", rng)), [1, 2]))
